@@ -20,7 +20,7 @@ claim(
 
 claim(
     "C19",
-    "Static: decides the index bookkeeping behind composition of surfaces for all surface lists and mesh sizes: running offsets start at 0, advance by exactly the width of the block they address (polynomial identity; index blocks offset + [lo, hi) stay below the advance for all mesh sizes >= 2), blocks tile axes of length sum-of-advances, per-surface values do not leak from one loop into a later loop or into a scalar attribute used for every surface, totals over the surface list are accumulated commutatively and never overwritten, every surface key the aerodynamic subsystems read is copied for multi-section surfaces, the MPhys wrapper groups map the same flight-condition inputs onto MPhys names in every option valuation, and the (de)multiplexers assign (never accumulate into) their outputs. Does not decide permutation / splitting invariance of numerical results.",
+    "Static: decides the index bookkeeping behind composition of surfaces for all surface lists and mesh sizes: running offsets start at 0, advance by exactly the width of the block they address (polynomial identity; index blocks offset + [lo, hi) stay below the advance for all mesh sizes >= 2), blocks tile axes of length sum-of-advances, per-surface values do not leak from one loop into a later loop or into a scalar attribute used for every surface, totals over the surface list are accumulated commutatively and never overwritten, a running total of input data is read only after the loop (so nothing computed for one surface depends on the surfaces listed before it), every surface key the aerodynamic subsystems read is copied for multi-section surfaces, the MPhys wrapper groups map the same flight-condition inputs onto MPhys names in every option valuation, and the (de)multiplexers assign (never accumulate into) their outputs. Does not decide permutation / splitting invariance of numerical results.",
     TB,
     "symbolic prefix-sum analysis of running offsets (loop-carried symbolic integers, uninterpreted linear SUM over the list) and def-use analysis of per-element values across loops",
     "DESIGN.md section 2 C19",
